@@ -12,6 +12,7 @@ CONSTANTS
   Challenge = 4
   Precedence = 2
   MaxBlock = 40
+  Gates = {TRUE, FALSE}
   Faults = {"none", "waiter", "submit"}
 INVARIANTS TypeOK SlotsInjective RelayBeforeTimeout RequestIsSlot ObservedNeverSubmits GateBlocksSubmission SingleWinner MonitoringOnlyRelay RelaySlotBeforeTimeoutBlock
 PROPERTIES NoSubmitAfterObserve NoSubmitBeforeSlot
